@@ -35,6 +35,21 @@ from .. import core, codec
 
 P = codec.P
 KEY_SHORTCUT = "cstream-end-shortcut-outcap"
+# round 2
+KEY_GENSEQ = "generateSequences-collector-survives"
+KEY_LOCALDICT = "localdict-cdict-stale-params"
+KEY_CONTIG = "dict-contiguous-with-src"
+KEY_RAWFB = "block-raw-fallback-outcap"
+R2_WHAT = {
+    KEY_GENSEQ: "ZSTD_generateSequences leaves cctx->seqCollector armed: every later frame of the context is stored as raw blocks "
+                "(and its sequences are written into the previous caller's array)",
+    KEY_LOCALDICT: "the CDict built lazily for ZSTD_CCtx_loadDictionary keeps the parameters of the first frame: after a parameter "
+                   "change the next frame is compressed with the old cParams (output depends on the context's history)",
+    KEY_CONTIG: "the output depends on the address of the caller's buffers: a prefix / raw dictionary that ends exactly where the "
+                "input starts is searched as contiguous prefix instead of extDict (documented: ZSTD_c_deterministicRefPrefix, default 0)",
+    KEY_RAWFB: "one-shot output depends on dstCapacity: ZSTD_entropyCompressSeqStore stores a block raw when the entropy stage "
+               "reports dstSize_tooSmall while srcSize <= dstCapacity, although the block compresses with a few more bytes of room",
+}
 
 
 def log(*a):
@@ -395,7 +410,7 @@ def gen_history(rng, inputs, dicts, t, c, fids, aux_cdict_slot, allow_abort_tail
     kinds = []
     nitems = rng.choice([1, 1, 2, 2, 3, 4])
     menu = ["frame"] * 4 + ["same", "same", "nearwin", "nearwin", "partial", "partial", "tinydst", "pledgelie", "burst", "bigthensmall",
-                             "rowframe", "optframe", "copysrc", "copydst", "wsjunk", "wsjunk", "midset", "midset"]
+                             "rowframe", "optframe", "copysrc", "copydst", "wsjunk", "wsjunk", "midset", "midset", "genseq", "genseq"]
     for it in range(nitems):
         k = rng.choice(menu)
         last = it == nitems - 1
@@ -477,6 +492,12 @@ def gen_history(rng, inputs, dicts, t, c, fids, aux_cdict_slot, allow_abort_tail
                 kinds.append("abort-tail")
             else:
                 L.append("reset %d %d" % (c, rng.choice([1, 3])))
+        elif k == "genseq":
+            # ZSTD_generateSequences arms cctx->seqCollector for its internal ZSTD_compress2: nothing of it may survive
+            src = rng.choice([i for i in inputs if 1000 < i[1] <= 70000])
+            L.append("reset %d 3" % c)
+            L.append("set %d %d %d" % (c, P["level"], rng.choice([1, 3, 5, 7])))
+            L.append("G %d %d %d" % (c, src[0], src[1]))
         elif k == "tinydst":
             src = rng.choice([i for i in inputs if 2000 < i[1] <= 70000])
             L.append("reset %d 3" % c)
@@ -1446,6 +1467,133 @@ def mt_finding_group(gid, bigs, blob_add):
     return g
 
 
+
+# --------------------------------------------------------------------------------------------
+# round 2: scenarios aimed at state / placement / capacity dependences outside the reset machinery
+
+TINY_FIXED = bytes.fromhex("62616163636361616262616163636362636263636163636363616162626261626263636362")
+
+
+def r2_tiny_inputs(rng, blob, n):
+    """inputs of 20..300 bytes whose single block compresses with a small gain (the raw fallback needs cSize close to srcSize)"""
+    outs = [blob.add(TINY_FIXED) + (1,)]
+    for _ in range(n):
+        ln = rng.randint(20, 300)
+        kind = rng.randrange(3)
+        alpha = rng.randint(2, 40)
+        b = bytearray()
+        for i in range(ln):
+            if kind == 0:
+                b.append(rng.randrange(alpha))
+            elif kind == 1:
+                b.append((i % (3 + alpha)) ^ (1 if rng.randrange(16) == 0 else 0))
+            else:
+                b.append((97 + rng.randrange(alpha) % 26) if rng.randrange(8) else (b[-1] if b else 97))
+        outs.append(blob.add(bytes(b)) + (rng.choice([1, 3, 5, 9, 13, 19]),))
+    return outs
+
+
+def r2_groups(rng, gid0, inputs, dicts, tiny, quick):
+    gs = []
+    texts = [i for i in inputs if 20000 <= i[1] <= 70000]
+    rawd = [d for d in dicts if d[2] == "raw" and d[1] >= 20000]
+
+    def mk(t, key):
+        g = Group(gid0 + len(gs), t)
+        g.mt = False
+        g.r2key = key
+        g.lines += ["arena 700000", "trace 0"]
+        gs.append(g)
+        return g
+
+    # (1) ZSTD_generateSequences, then the target (with and without a reset in between the bug is the same)
+    for rep in range(2 if quick else 6):
+        src = rng.choice(texts)
+        oth = rng.choice(texts)
+        t = Target(rng.choice(["c2", "stream", "cctx"]), src, params={"level": rng.choice([1, 3, 6])}, level=3, pieces=[(src[1], 2)], bias="r2-genseq")
+        g = mk(t, KEY_GENSEQ)
+        g.lines += ["ctx 0 heapz 0", "ctx 1 heap 0"]
+        g.lines += t.lines(0, 1001, caps=[63], fresh=True)
+        g.lines += ["set 1 %d %d" % (P["level"], rng.choice([1, 3, 5])), "G 1 %d %d" % (oth[0], oth[1])]
+        g.lines += t.lines(1, 1002, caps=[63])
+        g.variants = [(1001, "ref", "eq", dict(ctx="heapz", hist=[])), (1002, "after-generateSequences", "eq", dict(ctx="heap", hist=["genseq"]))]
+    # (2) ZSTD_CCtx_loadDictionary, a frame, a parameter change, the target: the lazily built CDict must follow the parameters
+    for rep in range(3 if quick else 10):
+        src = rng.choice(texts)
+        small = rng.choice([i for i in inputs if 300 <= i[1] <= 10000])
+        d = rng.choice(rawd)
+        dl = min(d[1], 20000)
+        pa, pb = rng.choice([({"level": 1}, {"level": 13}), ({"level": 13}, {"level": 1}), ({"level": 3}, {"level": 9}),
+                             ({"level": 6, "hashLog": 8}, {"level": 6, "hashLog": 17}), ({"level": 5, "minMatch": 6}, {"level": 5, "minMatch": 3})])
+        byref = rng.randint(0, 1)
+        t = Target("c2", src, params=pb, dct=("load", d[0], dl, byref, 0), bias="r2-localdict")
+        g = mk(t, KEY_LOCALDICT)
+        g.lines += ["ctx 0 heapz 0", "ctx 1 heapz 0"]
+        g.lines += t.lines(0, 1001, fresh=True)
+        g.lines += ["load 1 %d %d %d 0" % (d[0], dl, byref)]
+        g.lines += ["set 1 %d %d" % (P[k], v) for k, v in pa.items()]
+        g.lines += ["F 1 1003 %d %d 0 0 0 c2 0" % (small[0], small[1])]
+        g.lines += ["set 1 %d %d" % (P[k], v) for k, v in pb.items()]
+        g.lines += ["F 1 1002 %d %d 0 0 0 c2 0" % (src[0], src[1])]
+        g.variants = [(1001, "ref", "eq", dict(ctx="heapz", hist=[])),
+                      (1002, "params-changed-after-first-frame", "eq", dict(ctx="heapz", hist=["localdict-frame"], first=pa, then=pb))]
+    # (3) the prefix / dictionary placed right in front of the input
+    for rep in range(3 if quick else 10):
+        src = rng.choice(texts)
+        d = rng.choice(rawd)
+        dl = min(d[1], rng.choice([5000, 20000, 30000]))
+        lv = rng.choice([4, 13, 16] if src[1] <= 40000 else [4, 13])
+        sa0 = rng.choice([0, 64, 4096 + 13])
+        if rep % 2 == 0:
+            t = Target("c2", src, params={"level": lv}, dct=("prefix", d[0], dl), bias="r2-contig")
+            g = mk(t, KEY_CONTIG)
+            g.lines += ["ctx 0 heapz 0", "ctx 1 heapz 0", "ctx 2 heapz 0", "ctx 3 heapz 0"]
+            g.lines += t.lines(0, 1001, sa=sa0 + dl, fresh=True)
+            g.lines += ["set 1 %d %d" % (P["level"], lv), "prefixa 1 %d %d %d" % (d[0], dl, sa0),
+                        "F 1 1002 %d %d %d 0 0 c2 0" % (src[0], src[1], sa0 + dl)]
+            # with ZSTD_c_deterministicRefPrefix the two placements must agree (strict: no key)
+            g.lines += ["set 2 %d %d" % (P["level"], lv), "set 2 %d 1" % P["deterministicRefPrefix"], "prefix 2 %d %d" % (d[0], dl),
+                        "F 2 1003 %d %d %d 0 0 c2 0" % (src[0], src[1], sa0 + dl)]
+            g.lines += ["set 3 %d %d" % (P["level"], lv), "set 3 %d 1" % P["deterministicRefPrefix"], "prefixa 3 %d %d %d" % (d[0], dl, sa0),
+                        "F 3 1004 %d %d %d 0 0 c2 0" % (src[0], src[1], sa0 + dl)]
+            g.variants = [(1001, "ref", "eq", dict(ctx="heapz", hist=[])), (1002, "prefix-adjacent", "eq", dict(ctx="heapz", hist=["contig-prefix"]))]
+            g.det_pair = (1003, 1004)
+        else:
+            t = Target("udict", src, level=lv, dct=("dict", d[0], dl), bias="r2-contig")
+            g = mk(t, KEY_CONTIG)
+            g.lines += ["ctx 0 heapz 0", "ctx 1 heapz 0"]
+            g.lines += t.lines(0, 1001, sa=sa0 + dl)
+            g.lines += ["F 1 1002 %d %d %d 0 0 udictc %d %d %d" % (src[0], src[1], sa0 + dl, lv, d[0], dl)]
+            g.variants = [(1001, "ref", "eq", dict(ctx="heapz", hist=[])), (1002, "dict-adjacent", "eq", dict(ctx="heapz", hist=["contig-dict"]))]
+    # (4) one-shot compression of tiny inputs with every capacity from the compressed size upwards
+    t = Target("c2", (tiny[0][0], tiny[0][1], "tiny"), params={"level": 1}, bias="r2-rawfallback")
+    g = mk(t, KEY_RAWFB)
+    g.wsweep = True
+    g.lines += ["ctx 0 heapz 0"]
+    for o, l, lv in tiny:
+        g.lines += ["reset 0 3", "set 0 %d %d" % (P["level"], lv), "W 0 %d %d 48" % (o, l)]
+    return gs
+
+
+def judge_wsweep(g, res, report, ctx):
+    rc, out, err, script = res
+    n = 0
+    for l in out.split("\n"):
+        t = l.split(" ")
+        if t[0] != "W" or len(t) < 8:
+            continue
+        n += 1
+        o, ln, r0, nerr, ndiff, fcap, fsize = (int(x) for x in t[1:8])
+        ctx.count(("r2", "capacity-sweep", ndiff == 0, nerr > 0), nontrivial=True)
+        if ndiff >= 1000000:
+            report("rt", g, dict(what="a frame produced under a tight capacity does not decode", off=o, len=ln))
+        elif ndiff:
+            report("differ", g, dict(what="ZSTD_compress2 of the same %d bytes: %d bytes with a large dst, %d bytes with dstCapacity %d "
+                                          "(%d capacities of [r0, r0+48] differ, %d are refused)" % (ln, r0, fsize, fcap, ndiff, nerr),
+                                     off=o, len=ln), key=g.r2key)
+    if rc != 0 or n == 0:
+        report("crash", g, dict(rc=rc, stderr=err[-600:], last=out[-300:]))
+
 # --------------------------------------------------------------------------------------------
 
 def run(ctx):
@@ -1477,6 +1625,8 @@ def run_(ctx):
     # a dozen sections for the rsyncable groups
     rsrcs = [blob.add(codec.gen_input(random.Random(ctx.seed + 78 + i), kind, 6000000)) + ("rsync-" + kind,)
              for i, kind in enumerate(["random", "mixed"] if quick else ["random", "mixed", "text", "lowent"])]
+    r2rng = random.Random(ctx.seed * 7919 + 5)
+    tiny = r2_tiny_inputs(r2rng, blob, 150 if quick else 2500)
     blob_path = os.path.join(ctx.scratch, "blob.bin")
     with open(blob_path, "wb") as f:
         f.write(bytes(blob.b))
@@ -1516,12 +1666,19 @@ def run_(ctx):
         g.mt = False
     groups += fg
     groups.append(mt_finding_group(n_groups + n_mt + len(fg), bigs, mtsrc))
+    groups += r2_groups(r2rng, 200000, inputs, dicts, tiny, quick)
     if only is not None:
         groups = [g for g in groups if g.gid == only]
 
     viol = []
 
     def report(kind, g, detail, key=None):
+        if key is None and kind == "differ" and g is not None:
+            hist = (detail.get("info") or {}).get("hist", []) if isinstance(detail, dict) else []
+            if getattr(g, "r2key", None) and detail.get("label") != "det-pair":
+                key = g.r2key
+            elif "genseq" in hist:
+                key = KEY_GENSEQ
         viol.append((kind, g, detail, key))
 
     known_hits = {}
@@ -1543,9 +1700,18 @@ def run_(ctx):
                 mt_checks(ctx, model, g, frames, dumps, report)
             except Exception as e:
                 report("crash", g, dict(what="mt lock-step failed", error=repr(e)))
+        elif getattr(g, "wsweep", False):
+            judge_wsweep(g, res, report, ctx)
+            st, frames, dumps = {}, {}, []
         else:
             st, frames, dumps = judge_group(g, res, report)
-            per_group.append((g, dumps, frames))
+            if getattr(g, "det_pair", None):
+                fa, fb = frames.get(g.det_pair[0]), frames.get(g.det_pair[1])
+                if fa is None or fb is None or not same_frame(fa, fb):
+                    report("differ", g, dict(label="det-pair", what="ZSTD_c_deterministicRefPrefix=1: prefix elsewhere vs adjacent to the input",
+                                             ref=strip(fa) if fa else None, got=strip(fb) if fb else None))
+            if not getattr(g, "r2key", None):
+                per_group.append((g, dumps, frames))
             if st.get("shortcut_diff") and getattr(g, "shortcut_witness", None):
                 known(KEY_SHORTCUT, g, g.shortcut_witness)
         for k, v in st.items():
@@ -1635,7 +1801,12 @@ def run_(ctx):
     ctx.proof_verdict(search)
 
     nrep = 0
+    seen_keys = set()
     for kind, g, detail, key in viol:
+        if key is not None:
+            if key in seen_keys:
+                continue        # one report per recorded finding
+            seen_keys.add(key)
         nrep += 1
         if nrep > 12:
             break
@@ -1647,6 +1818,8 @@ def run_(ctx):
                 "lockstep": "the real code disagrees with the model the theorems are about"}[kind]
         rep = dict(kind=kind, gid=g.gid if g is not None else None, target=g.t.describe() if g is not None else None,
                    detail=detail, script=(g.lines[:600] if g is not None else None))
+        if key in R2_WHAT:
+            what = R2_WHAT[key]
         ctx.violation(rep, what="%s (%s)" % (what, json.dumps(detail, default=str)[:300]), no_input=not concrete, key=key)
     for key, (g, detail) in known_hits.items():
         what = {KEY_SHORTCUT: "ZSTD_compressStream2(ZSTD_e_end) output bytes depend on the output capacity (direct ZSTD_compressEnd shortcut vs buffered path)",
